@@ -39,6 +39,7 @@ func mkReader(s *simrt.Sim, data []byte, allowFail bool) *simio.Reader {
 		r.FailAt = s.Choose(len(data)+1, "failat")
 		r.FailErr = simio.FailureKinds[s.Choose(len(simio.FailureKinds), "srcerrkind")]
 		r.ErrWithData = s.Choose(2, "errwithdata") == 0
+		r.OneShot = s.Choose(3, "oneshot") == 0 // the source reports its failure once and then carries on
 	}
 	return r
 }
@@ -66,9 +67,12 @@ func consume(s *simrt.Sim, r io.Reader, maxBuf int) ([]byte, error, string) {
 		return out, err, "io.ReadAll"
 	default:
 		var buf bytes.Buffer
-		_, err := io.Copy(&buf, r)
+		n, err := io.Copy(&buf, r)
 		if err == nil {
 			err = io.EOF
+		}
+		if n != int64(buf.Len()) {
+			s.Fail("copy-count", fmt.Sprintf("io.Copy reports %d bytes copied, the destination received %d", n, buf.Len()))
 		}
 		return buf.Bytes(), err, "io.Copy"
 	}
